@@ -170,6 +170,10 @@ class BaseBatch(abc.ABC):
             if response_map and self._client.strict:
                 raise exceptions.IdentityError(f"unexpected response found: {response_map.keys()}")
 
+            # the server may answer in any order: keep results attributable to the calls by position
+            order = {request.id: idx for idx, request in enumerate(batch_request) if request.id is not None}
+            batch_response._responses.sort(key=lambda response: order.get(response.id, len(batch_request)))
+
 
 class Batch(BaseBatch):
     """
